@@ -180,7 +180,7 @@ Proof. vm_compute. repeat split. Qed.
 (* the same programs and schedule on the model of the repaired code: the woken
    join returns ERROR (no success is recorded, fiber 1 has returned) *)
 Lemma witness_a_repaired :
-  let x := irun (iinit true true wa_progs) (wa_sched ++ [1%nat]) in
+  let x := irun (iinit true true wa_progs) (rep 10 1%nat ++ rep 5 2%nat ++ rep 6 1%nat) in
   gsucc (gh x) = [] /\ stack_empty x 1 = true /\ gdet (gh x) = true /\ dwr (gh x) = true.
 Proof. vm_compute. repeat split. Qed.
 
@@ -260,10 +260,17 @@ Definition run (x : gst) (t : nat) : Prop :=
 Definition tpre (x : gst) (t : nat) : Prop :=
   t = tgt -> gfin (gh x) = None /\ ds_of (base x) <> D_WFJ.
 Definition idle (x : gst) (t : nat) : Prop := run x t /\ tpre x t.
-Definition nostolen (x : gst) : Prop := stolen_d (gh x) = false /\ stolen_j (gh x) = false.
-(* the mailbox of a joiner that was woken holds the target's value *)
-Definition mail_ok (x : gst) (t : nat) : Prop :=
+Definition nostolen (x : gst) : Prop := stolen_j (gh x) = false.
+(* the mailbox of a joiner that was woken holds the target's value, or the mark of a detach *)
+Definition mail_val (x : gst) (t : nat) : Prop :=
   nostolen x -> exists R, gfin (gh x) = Some R /\ cell (gm x) (c_res t) = R.
+Definition mail_ok (x : gst) (t : nat) : Prop :=
+  nostolen x -> (exists R, gfin (gh x) = Some R /\ cell (gm x) (c_res t) = R) \/ cell (gm x) (c_res t) = SENT.
+(* what the taker's store left in the mailbox of the sleeper it took *)
+Definition given (x : gst) (t : nat) : Prop :=
+  forall u, mb (gh x) = MBTaken t u ->
+    (u = tgt -> exists R, gfin (gh x) = Some R /\ cell (gm x) (c_res t) = R) /\
+    (u <> tgt -> cell (gm x) (c_res t) = SENT).
 Definition taken_by_any (x : gst) (t : nat) : Prop := exists u, mb (gh x) = MBTaken t u.
 
 (* who may sleep in the slot: continuation X of fiber t *)
@@ -319,7 +326,7 @@ Inductive tshape (x : gst) (t : nat) : stack jc -> Prop :=
 | sh_s7 X : slot_wait (gm x) t = None -> blocked (gm x) t = negb (woken (gh x)) ->
     ((mb (gh x) = MBFull t /\ woken (gh x) = false) \/ taken_by_any x t) ->
     (woken (gh x) = true -> t <> tgt -> mail_ok x t) ->
-    (gave (gh x) = true -> mb (gh x) = MBTaken t tgt -> exists R, gfin (gh x) = Some R /\ cell (gm x) (c_res t) = R) ->
+    (gave (gh x) = true -> given x t) ->
     sleeperX x t X ->
     tshape x t [Asleep; YLoop; FC X]
 | sh_s8 X : slot_wait (gm x) t = None -> blocked (gm x) t = false -> taken_by_any x t ->
@@ -350,7 +357,10 @@ Inductive tshape (x : gst) (t : nat) : stack jc -> Prop :=
 (* fiber_join *)
 | sh_jload p k : t <> tgt -> run x t -> tshape x t [CLoadC c_ds 5; FC (JLoaded p k)]
 | sh_jxchg p k : t <> tgt -> run x t -> tshape x t [CXchgC c_ds D_WTJ 5; FC (JXchg p k)]
-| sh_jmail p k : t <> tgt -> run x t -> taken_by_any x t -> woken (gh x) = true -> mail_ok x t ->
+| sh_jchk p k : t <> tgt -> run x t -> taken_by_any x t -> woken (gh x) = true -> mail_ok x t ->
+    na (gh x) = O -> late (gh x) t = false -> tshape x t [CLoadC (c_res t) 5; FC (JChk p k)]
+| sh_jdetd p k : t <> tgt -> run x t -> tshape x t [CStoreC (c_res t) 0 5; FC (JDetd p k)]
+| sh_jmail p k : t <> tgt -> run x t -> taken_by_any x t -> woken (gh x) = true -> mail_val x t ->
     na (gh x) = O -> late (gh x) t = false -> tshape x t [CLoadC (c_res t) 5; FC (JMail p k)]
 | sh_jclear p k v : t <> tgt -> run x t -> taken_by_any x t -> woken (gh x) = true ->
     (nostolen x -> gfin (gh x) = Some v) ->
@@ -367,7 +377,10 @@ Inductive tshape (x : gst) (t : nat) : stack jc -> Prop :=
 | sh_trx p k : t <> tgt -> run x t -> ds_of (base x) <> D_NONE -> tshape x t [CXchgC c_ds D_WTJ 5; FC (TrX p k)]
 (* fiber_detach *)
 | sh_dx p k : t <> tgt -> run x t -> tshape x t [CXchgC c_ds D_DET 5; FC (DX p k)]
+| sh_dsent p k j : t <> tgt -> run x t -> mb (gh x) = MBTaken j t -> woken (gh x) = false ->
+    gave (gh x) = false -> j <> tgt -> tshape x t [CStoreC (c_res j) SENT 5; FC (DSent p k j)]
 | sh_dready p k j : t <> tgt -> run x t -> mb (gh x) = MBTaken j t -> woken (gh x) = false ->
+    (j <> tgt -> gave (gh x) = true) ->
     tshape x t [FStWrite j ST_READY; FC (DReady p k j)].
 
 Definition succ_ok (x : gst) (e : nat * Z * option Z) : Prop :=
@@ -391,7 +404,8 @@ Record G (x : gst) : Prop := {
              exists X, stk (base x) s = [Asleep; YLoop; FC X];
   g_full : forall s, mb (gh x) = MBFull s -> exists X, stk (base x) s = [Asleep; YLoop; FC X];
   g_woken : woken (gh x) = true -> exists s u, mb (gh x) = MBTaken s u;
-  g_gave : gave (gh x) = true -> exists s, mb (gh x) = MBTaken s tgt;
+  g_gave : gave (gh x) = true -> exists s u, mb (gh x) = MBTaken s u;
+  g_fx : fxd (base x) = true;
   g_taken : forall s u, mb (gh x) = MBTaken s u -> s <> u /\
             (s <> tgt -> u <> tgt -> stolen_d (gh x) = true \/ stolen_j (gh x) = true);
   g_std : stolen_d (gh x) = true -> dwr (gh x) = true;
@@ -422,8 +436,8 @@ Record rely (x x' : gst) (t : nat) : Prop := {
          (exists s, mb (gh x) = MBFull s /\ mb (gh x') = MBTaken s t /\ woken (gh x) = false);
   r_wk : (woken (gh x') = woken (gh x) /\ forall u, u <> t -> blocked (gm x') u = blocked (gm x) u) \/
          (woken (gh x) = false /\ woken (gh x') = true /\ mb (gh x') = mb (gh x) /\
-          (t = tgt -> gave (gh x) = true) /\
-          exists s, mb (gh x) = MBTaken s t /\ blocked (gm x') s = false /\
+          exists s, mb (gh x) = MBTaken s t /\ (s <> tgt -> nostolen x -> gave (gh x) = true) /\
+                    blocked (gm x') s = false /\
                     forall u, u <> t -> u <> s -> blocked (gm x') u = blocked (gm x) u);
   r_fst : forall u, u <> t -> fstate (gm x') u = fstate (gm x) u \/
                               (mb (gh x) = MBTaken u t /\ woken (gh x) = false);
@@ -432,9 +446,11 @@ Record rely (x x' : gst) (t : nat) : Prop := {
   r_ds : ds_of (base x') = ds_of (base x) \/ ds_of (base x') = D_WTJ \/ ds_of (base x') = D_DET \/
          (t = tgt /\ ds_of (base x') = D_WFJ);
   r_cell : (gave (gh x') = gave (gh x) /\ forall u, u <> t -> cell (gm x') (c_res u) = cell (gm x) (c_res u)) \/
-           (t = tgt /\ gave (gh x) = false /\ gave (gh x') = true /\ woken (gh x) = false /\
-            exists j R, mb (gh x) = MBTaken j tgt /\ gfin (gh x) = Some R /\ cell (gm x') (c_res j) = R /\
-                        forall u, u <> j -> cell (gm x') (c_res u) = cell (gm x) (c_res u));
+           (gave (gh x) = false /\ gave (gh x') = true /\ woken (gh x) = false /\
+            exists j, mb (gh x) = MBTaken j t /\
+                      ((t = tgt /\ exists R, gfin (gh x) = Some R /\ cell (gm x') (c_res j) = R) \/
+                       (t <> tgt /\ cell (gm x') (c_res j) = SENT)) /\
+                      forall u, u <> j -> cell (gm x') (c_res u) = cell (gm x) (c_res u));
   r_na : na (gh x') = na (gh x) \/ taken_by_any x t;
   r_nb : nb (gh x') = nb (gh x) \/ exists s, mb (gh x) = MBTaken s t;
   r_late : forall u, u <> t -> late (gh x') u = late (gh x) u;
@@ -475,9 +491,8 @@ Section Stable.
 
   Lemma st_nostolen : nostolen x' -> nostolen x.
   Proof.
-    intros [A B]. split.
-    - destruct (stolen_d (gh x)) eqn:E; auto. rewrite (r_sd _ _ _ HR E) in A. discriminate.
-    - destruct (stolen_j (gh x)) eqn:E; auto. rewrite (r_sj _ _ _ HR E) in B. discriminate.
+    unfold nostolen. intros B.
+    destruct (stolen_j (gh x)) eqn:E; auto. rewrite (r_sj _ _ _ HR E) in B. discriminate.
   Qed.
 
   Lemma st_tfin : tfin x -> tfin x'.
@@ -494,7 +509,7 @@ Section Stable.
 
   Lemma st_blocked : blocked (gm x') u = blocked (gm x) u.
   Proof.
-    destruct (r_wk _ _ _ HR) as [[_ E]|[W [_ [_ [_ [s [E [_ B]]]]]]]]; auto.
+    destruct (r_wk _ _ _ HR) as [[_ E]|[W [_ [_ [s [E [_ [_ B]]]]]]]]; auto.
     destruct (Nat.eq_dec u s) as [->|N]; auto.
     destruct (g_asleep _ HG _ _ E W) as [X HX]. now apply Hna in HX.
   Qed.
@@ -516,14 +531,19 @@ Section Stable.
 
   Lemma st_cell : woken (gh x) = true -> cell (gm x') (c_res u) = cell (gm x) (c_res u).
   Proof.
-    intros W. destruct (r_cell _ _ _ HR) as [[_ E]|[_ [_ [_ [W' _]]]]]; auto. congruence.
+    intros W. destruct (r_cell _ _ _ HR) as [[_ E]|[_ [_ [W' _]]]]; auto. congruence.
   Qed.
 
   Lemma st_mail : woken (gh x) = true -> mail_ok x u -> mail_ok x' u.
   Proof.
-    intros W H NS. destruct (H (st_nostolen NS)) as [R [A B]]. exists R. split.
-    - now apply st_gfin_some.
-    - now rewrite st_cell.
+    intros W H NS. destruct (H (st_nostolen NS)) as [[R [A B]]|B].
+    - left. exists R. split; [now apply st_gfin_some | now rewrite st_cell].
+    - right. now rewrite st_cell.
+  Qed.
+  Lemma st_mailv : woken (gh x) = true -> mail_val x u -> mail_val x' u.
+  Proof.
+    intros W H NS. destruct (H (st_nostolen NS)) as [R [A B]].
+    exists R. split; [now apply st_gfin_some | now rewrite st_cell].
   Qed.
 End Stable.
 
@@ -581,10 +601,10 @@ Section Stable3.
 
   Lemma st_woken_false j : mb (gh x) = MBTaken j u -> woken (gh x) = false -> woken (gh x') = false.
   Proof.
-    intros E W. destruct (r_wk _ _ _ HR) as [[F _]|[_ [_ [_ [_ [s [F _]]]]]]]; congruence.
+    intros E W. destruct (r_wk _ _ _ HR) as [[F _]|[_ [_ [_ [s [F _]]]]]]; congruence.
   Qed.
-  Lemma st_gave_eq : u = tgt -> gave (gh x') = gave (gh x).
-  Proof. intros E. destruct (r_cell _ _ _ HR) as [[F _]|[F _]]; congruence. Qed.
+  Lemma st_gave_eq j : mb (gh x) = MBTaken j u -> gave (gh x') = gave (gh x).
+  Proof. intros E. destruct (r_cell _ _ _ HR) as [[F _]|[_ [_ [_ [j' [F _]]]]]]; congruence. Qed.
   Lemma st_na : ~ taken_by_any x t -> na (gh x') = na (gh x).
   Proof. intros N. destruct (r_na _ _ _ HR) as [E|E]; [auto | contradiction]. Qed.
   Lemma st_na_taken : taken_by_any x u -> na (gh x') = na (gh x).
@@ -633,8 +653,10 @@ Section Stable5.
   Proof. intros E <-. eapply st_nb; eauto. Qed.
   Lemma st_late_v v : late (gh x) u = v -> late (gh x') u = v.
   Proof. intros <-. now apply (r_late _ _ _ HR). Qed.
-  Lemma st_gave_v v : u = tgt -> gave (gh x) = v -> gave (gh x') = v.
+  Lemma st_gave_v j v : mb (gh x) = MBTaken j u -> gave (gh x) = v -> gave (gh x') = v.
   Proof. intros E <-. eapply st_gave_eq; eauto. Qed.
+  Lemma st_gave_imp (P : Prop) j : mb (gh x) = MBTaken j u -> (P -> gave (gh x) = true) -> P -> gave (gh x') = true.
+  Proof. intros E H HP. erewrite st_gave_eq; eauto. Qed.
   Lemma st_sj_imp (P : Prop) : (P -> stolen_j (gh x) = true) -> P -> stolen_j (gh x') = true.
   Proof. intros H HP. apply (r_sj _ _ _ HR). auto. Qed.
   Lemma st_released : released (gh x) = true -> released (gh x') = true.
@@ -655,7 +677,7 @@ Proof.
   destruct H.
   all: try (assert (Hna : forall X, stk (base x) u <> [Asleep; YLoop; FC X]) by not_asleep Hs).
   all: try (econstructor; eauto 6 using st_run, st_idle, st_tpre, st_gfin_nn, st_gfin_some, st_mb_pending,
-              st_mb_taken, st_taken_any, st_woken, st_cw, st_tfin, st_tdone, st_sleeper, st_mail,
+              st_mb_taken, st_taken_any, st_woken, st_cw, st_tfin, st_tdone, st_sleeper, st_mail, st_mailv, st_gave_imp,
               st_blocked_v, st_fstate_v, st_slot_v, st_na0, st_nb0, st_late_v, st_gave_v, st_released,
               st_jwr_reg, st_val, st_woken_false, st_sj_imp, st_ds_nwfj, st_ds_nz, st_nt_taken, st_nt_full,
               st_nt_pending; fail).
@@ -666,36 +688,40 @@ Proof.
   { destruct H1 as [[E _]|E]; [eapply st_nt_full | eapply st_nt_taken]; eauto. }
   constructor.
   - eapply st_slot_v; eauto.
-  - destruct (r_wk _ _ _ HR) as [[E F]|[W [W' [_ [_ [s [E [B _]]]]]]]].
+  - destruct (r_wk _ _ _ HR) as [[E F]|[W [W' [_ [s [E [_ [B _]]]]]]]].
     + now rewrite E, F.
     + destruct H1 as [[E1 _]|[w E1]]; [congruence|].
       assert (s = u) by congruence. subst s. now rewrite B, W'.
   - destruct H1 as [[E W]|E].
     + destruct (r_mb _ _ _ HR) as [F|[[F _]|[[F _]|[s [F [F' _]]]]]]; try congruence.
       * left. split; [congruence|].
-        destruct (r_wk _ _ _ HR) as [[Q _]|[_ [_ [_ [_ [s [Q _]]]]]]]; congruence.
+        destruct (r_wk _ _ _ HR) as [[Q _]|[_ [_ [_ [s [Q _]]]]]]; congruence.
       * right. exists t. congruence.
     + right. eapply st_taken_any; eauto.
   - intros W' Nt. destruct (woken (gh x)) eqn:W.
     + eapply st_mail; eauto.
-    + destruct (r_wk _ _ _ HR) as [[Q _]|[_ [_ [_ [Gv [s [E _]]]]]]]; [congruence|].
+    + destruct (r_wk _ _ _ HR) as [[Q _]|[_ [_ [_ [s [E [Gv _]]]]]]]; [congruence|].
       destruct H1 as [[E1 _]|[w E1]]; [congruence|].
       assert (s = u) by congruence. subst s. assert (w = t) by congruence. subst w.
       intros NS. pose proof (st_nostolen _ _ _ HR NS) as NS0.
+      destruct (H3 (Gv Nt NS0) _ E) as [GA GB].
+      assert (C : cell (gm x') (c_res u) = cell (gm x) (c_res u)).
+      { destruct (r_cell _ _ _ HR) as [[_ C]|[C _]]; [now apply C | rewrite (Gv Nt NS0) in C; discriminate]. }
       destruct (Nat.eq_dec t tgt) as [Et|Nt'].
-      * destruct (H3 (Gv Et)) as [R [A B]]; [congruence|].
-        exists R. split; [eapply st_gfin_some; eauto|].
-        destruct (r_cell _ _ _ HR) as [[_ C]|[_ [C _]]]; [now rewrite C | rewrite (Gv Et) in C; discriminate].
-      * destruct (g_taken _ HG _ _ E) as [_ S]. destruct NS0 as [S1 S2].
-        destruct (S Nt Nt'); congruence.
-  - intros Gv' E'.
-    destruct (r_cell _ _ _ HR) as [[Gq C]|[Et [Gf [_ [_ [j [R [E [A [B _]]]]]]]]]].
-    + assert (E0 : mb (gh x) = MBTaken u tgt).
+      * destruct (GA Et) as [R [A B]]. left. exists R. split; [eapply st_gfin_some; eauto | now rewrite C].
+      * right. rewrite C. now apply GB.
+  - intros Gv' w E'.
+    destruct (r_cell _ _ _ HR) as [[Gq C]|[Gf [_ [_ [j [E [V C]]]]]]].
+    + assert (E0 : mb (gh x) = MBTaken u w).
       { destruct (r_mb _ _ _ HR) as [F|[[F [F'|F']]|[[F F']|[s [F [F' _]]]]]]; try congruence.
-        rewrite Gq in Gv'. destruct (g_gave _ HG Gv') as [s' Q]. congruence. }
-      rewrite Gq in Gv'. destruct (H3 Gv' E0) as [R [A B]]. exists R. split; [eapply st_gfin_some; eauto|].
-      now rewrite C.
+        rewrite Gq in Gv'. destruct (g_gave _ HG Gv') as [s' [u' Q]]. congruence. }
+      rewrite Gq in Gv'. destruct (H3 Gv' _ E0) as [GA GB]. rewrite (C u Hut). split.
+      * intros Ew. destruct (GA Ew) as [R [A B]]. exists R. split; [eapply st_gfin_some; eauto | exact B].
+      * exact GB.
     + pose proof (st_mb_taken _ _ _ HR _ _ E) as E2. assert (j = u) by congruence. subst j.
-      exists R. split; [eapply st_gfin_some; eauto | exact B].
+      assert (w = t) by congruence. subst w.
+      destruct V as [[Et [R [A B]]]|[Nt' B]]; split; intros Q; try contradiction.
+      * exists R. split; [eapply st_gfin_some; eauto | exact B].
+      * exact B.
   - eapply st_sleeper; eauto.
 Qed.
